@@ -414,6 +414,27 @@ func H_C08_Outcome(nv, na int) {
 	vrt.Reach("end")
 }
 
+// H_C08_OutcomeInt: Outcome is generic over helper.Number; with integer values
+// (prices in cents, say) the portfolio arithmetic must still be done in floating point.
+func H_C08_OutcomeInt(n int) {
+	vi := make([]int, n)
+	vf := make([]float64, n)
+	for i := range vi {
+		vi[i] = vrt.Int("v", i)
+		vrt.Assume(vi[i] >= 1)
+		vrt.Assume(vi[i] <= 1000000)
+		vf[i] = float64(vi[i])
+	}
+	a := symActions("a", n)
+	got := Collect1(strategy.Outcome(Src(vi, 0), Src(a, 0)))
+	vrt.Assert("len", len(got) == n)
+	want := portfolio(vf, a)
+	for i := 0; i < n && i < len(got); i++ {
+		vrt.AssertEqAt("portfolio_int", i, got[i], want[i])
+	}
+	vrt.Reach("end")
+}
+
 // H_C08_BuyAndHold: the bundled buy-and-hold strategy yields v_i/v_0 - 1.
 func H_C08_BuyAndHold(n int) {
 	v := positive("v", n)
